@@ -491,7 +491,12 @@ pub fn run() {
     });
     par_cases("vars-pauli-pairs", n_rand, move |r, i| {
         // small scalar-ish diagrams: isolated spiders and pairs (remove_single / remove_pair paths)
-        let d = gen_random(r, &DiagParams { max_spiders: 3, max_bnd: 1, pool: PhasePool::Exact, graph_like: false, bare_wires: false, var_prob: 0.8 });
+        let mut d = gen_random(r, &DiagParams { max_spiders: 3, max_bnd: 1, pool: PhasePool::Exact, graph_like: false, bare_wires: false, var_prob: 0.8 });
+        if i % 3 == 2 {
+            // a few variables with numbers around the word-size marks
+            let offset = *r.pick(&[60u32, 61, 62, 125, 126, (1 << 16) - 2]);
+            rewire_vars_from(&mut d, r, 5, 0.8, offset);
+        }
         check_desc("vars-pauli-pairs", i, r, &d);
     });
     let nls = t.pick(40usize, 1_500usize);
@@ -519,7 +524,8 @@ pub fn run() {
             _ => gen_gadget_pairs(r, PhasePool::CliffordHeavy, 0.0),
         };
         let nv = *r.pick(&[9u32, 12, 16]);
-        rewire_vars(&mut d, r, nv, 0.7);
+        let offset = *r.pick(&[0u32, 0, 55, 58, 120, 1 << 20]);
+        rewire_vars_from(&mut d, r, nv, 0.7, offset);
         check_desc("vars-wide", i, r, &d);
     });
     // many variables on many spiders: large scalar-factor tables
